@@ -467,6 +467,45 @@ def _is_field(t, *names):
     return isinstance(t, tuple) and t and t[0] == 'in' and tuple(x[1] for x in t[1] if isinstance(x, tuple) and x[0] == 'f')[-len(names):] == names
 
 
+def _reader_zero_fills(ctx, F):
+    """the reader shifts in zeros once the stream is over: every update of `point` in the decoding step is
+    point << W  or  (point << W) | <word read from bulk>.  True / False / None (decode_symbol not found)."""
+    dec = anchors.method(F, anchors.RDEC, 'decode_symbol', 'stream::Decode')
+    zero_fill = None
+    if dec is not None:
+        ctx.touch(dec)
+        dev, dpaths = rules.evaluate(dec)
+        zero_fill = bool(dpaths)
+        P = (1, 'deref', ('f', 'point'))
+        for r in dpaths or []:
+            if r.end != 'return':
+                continue
+            v = dev.final_read(r, P)
+            if v == ('in', P):
+                continue
+            shl = v
+            if v[0] == 'bin' and v[1] == 'BitOr':
+                a, b = v[2], v[3]
+                shl, w = (a, b) if (a[0] == 'bin' and a[1] == 'Shl') else (b, a)
+                if not any(isinstance(x, tuple) and x and x[0] == 'call' and str(x[1]).endswith('ReadWords::read') for x in sym.subterms(w)):
+                    zero_fill = False
+            if not (shl[0] == 'bin' and shl[1] == 'Shl' and shl[2] == ('in', P)):
+                zero_fill = False
+    return zero_fill
+
+
+def check_reader_zero_fill(ctx, F):
+    key = 'R4/reader-zero-fill/' + anchors.RDEC
+    role = 'past the end of the data the decoder shifts zeros into its window'
+    z = _reader_zero_fills(ctx, F)
+    if z is None:
+        ctx.bad('R4', role, anchors.RDEC, 'decode_symbol not found', key=key)
+    elif z:
+        ctx.ok('R4', role, anchors.RDEC, 'every update of point is point << W or (point << W) | word read', key=key)
+    else:
+        ctx.bad('R4', role, anchors.RDEC, 'an update of `point` is neither `point << W` nor `(point << W) | <word read>`: a missing word is not replaced by zeros, the suffix the sealing rule (point = lower + 2^k - 1, truncated) is tight for', key=key)
+
+
 def check_exhaustion_tolerance(ctx, F):
     """maybe_exhausted() tolerates at least the largest distance that sealing can put between `point` and `lower`.
 
@@ -508,29 +547,7 @@ def check_exhaustion_tolerance(ctx, F):
                     T = pow2.p2(x[3])
                     if T is not None and x[1] == 'Le':
                         T = T.plus(pow2.P2([(pow2.E0, 1)]))
-    # the reader shifts in zeros once the stream is over: every update of `point` in the decoding step is
-    # point << W  or  (point << W) | <word read from bulk>
-    dec = anchors.method(F, anchors.RDEC, 'decode_symbol', 'stream::Decode')
-    zero_fill = None
-    if dec is not None:
-        ctx.touch(dec)
-        dev, dpaths = rules.evaluate(dec)
-        zero_fill = bool(dpaths)
-        P = (1, 'deref', ('f', 'point'))
-        for r in dpaths or []:
-            if r.end != 'return':
-                continue
-            v = dev.final_read(r, P)
-            if v == ('in', P):
-                continue
-            shl = v
-            if v[0] == 'bin' and v[1] == 'BitOr':
-                a, b = v[2], v[3]
-                shl, w = (a, b) if (a[0] == 'bin' and a[1] == 'Shl') else (b, a)
-                if not any(isinstance(x, tuple) and x and x[0] == 'call' and str(x[1]).endswith('ReadWords::read') for x in sym.subterms(w)):
-                    zero_fill = False
-            if not (shl[0] == 'bin' and shl[1] == 'Shl' and shl[2] == ('in', P)):
-                zero_fill = False
+    zero_fill = _reader_zero_fills(ctx, F)
     if A is None or k is None or T is None or not zero_fill:
         ctx.unresolved('R10', role, anchors.RDEC, 'shape not recognised (sealing addend %s, emitted-word shift %s, tolerance %s, reader zero-fills past the end: %s)' % (
             'found' if A is not None else 'missing', 'found' if k is not None else 'missing', 'found' if T is not None else 'missing', zero_fill), key=key)
